@@ -18,6 +18,10 @@ import (
 	"golang.org/x/tools/go/cfg"
 )
 
+// loopProgConsumesInput (optional, set by a property's own file): does CFG node n consume external input, so that
+// the iteration has made progress although nothing the condition reads was written? (service loops)
+var loopProgConsumesInput func(c *Ctx, fi *FuncInfo, n ast.Node) bool
+
 type loopProgResult struct {
 	loops, skipped int
 }
@@ -139,6 +143,9 @@ func loopProgressBody(c *Ctx, rule string, fi *FuncInfo, name string, body *ast.
 		}
 		res.loops++
 		writes := func(n ast.Node) bool {
+			if loopProgConsumesInput != nil && loopProgConsumesInput(c, fi, n) {
+				return true
+			}
 			return containsNode(n, func(x ast.Node) bool {
 				switch t := x.(type) {
 				case *ast.AssignStmt:
